@@ -1,6 +1,1342 @@
-//! C02 — not built yet.
-use mcx::{Ctx, Value};
-pub fn run(_ctx: &Ctx, _replay: Option<&Value>) -> i32 {
-    eprintln!("C02: check not built yet");
-    2
+//! C02 — a proof binds to its statement; altered statements or proofs are rejected.
+//!
+//! Family (F): exhaustive fault enumeration around honest (program, inputs, outputs, proof) tuples.
+//! Deviation bound 0: every honest tuple must verify. Bound 1: every single deviation of
+//!   * the statement (program-hash elements, kernel procedure set, every stack-input position,
+//!     every stack-output position, every overflow address, deep element dropped / added),
+//!   * the hash-function tag (relabelled through `ExecutionProof::new` and through byte 0),
+//!   * the proof parameters (proofs *produced* under every non-accepted neighbour of each accepted
+//!     option set, and honest proofs whose option bytes are *relabelled* to such a neighbour),
+//!   * the serialised proof (bit flips, truncations)
+//! must make `ExecutionProof::from_bytes` or `miden::verify` return `Err`. Bound 2 (thorough): all
+//! pairs of statement deviations.
+//!
+//! Oracle: `Ok(_)` => kind "accepted", panic => kind "panic". Nothing else is demanded.
+//!
+//! Rule found in /repo/verifier/src/lib.rs: `verify` passes `AcceptableOptions::OptionSet` to
+//! winterfell, i.e. *exact membership* of the proof's `ProofOptions` in a per-tag list
+//! (Blake3_192: {REGULAR_96}, Blake3_256: {REGULAR_128}, Rpo256: {RECURSIVE_96, RECURSIVE_128});
+//! no security-level threshold is involved. "Outside the accepted sets" therefore means: any
+//! parameter tuple that is not literally one of those, stronger ones included.
+
+use crate::common::*;
+use mcx::{guard, json, Ctx, Tier, Value};
+use miden::{
+    prove, verify, Digest, ExecutionProof, FieldExtension, HashFunction, Kernel, ProgramInfo,
+    ProvingOptions, StackOutputs,
+};
+use rayon::prelude::*;
+use std::collections::{BTreeMap, BTreeSet, HashSet};
+use vm_core::{Felt, StarkField};
+
+// ------------------------------------------------------------------------------------------------
+// option sets (the specification side: copied from the documentation of `verify`, not read from
+// the constants at run time, so that a change of the accepted sets is seen as a change)
+// ------------------------------------------------------------------------------------------------
+
+#[derive(Clone, Copy, PartialEq, Eq, PartialOrd, Ord, Debug)]
+struct Params {
+    nq: usize,
+    blowup: usize,
+    grind: u32,
+    ext: u8, // 1 = none, 2 = quadratic, 3 = cubic
+    fold: usize,
+    rem: usize,
+}
+
+const REGULAR_96: Params = Params { nq: 27, blowup: 8, grind: 16, ext: 2, fold: 8, rem: 255 };
+const REGULAR_128: Params = Params { nq: 27, blowup: 16, grind: 21, ext: 3, fold: 8, rem: 255 };
+const RECURSIVE_96: Params = Params { nq: 27, blowup: 8, grind: 16, ext: 2, fold: 4, rem: 7 };
+const RECURSIVE_128: Params = Params { nq: 27, blowup: 16, grind: 21, ext: 3, fold: 4, rem: 7 };
+
+const TAGS: [(u8, &str); 3] = [(0, "blake3_192"), (1, "blake3_256"), (2, "rpo256")];
+
+fn tag_fn(tag: u8) -> HashFunction {
+    match tag {
+        0 => HashFunction::Blake3_192,
+        1 => HashFunction::Blake3_256,
+        2 => HashFunction::Rpo256,
+        _ => panic!("harness: no such hash tag {tag}"),
+    }
+}
+
+fn accepted_under(tag: u8) -> Vec<Params> {
+    match tag {
+        0 => vec![REGULAR_96],
+        1 => vec![REGULAR_128],
+        2 => vec![RECURSIVE_96, RECURSIVE_128],
+        _ => vec![],
+    }
+}
+
+/// the four standard option sets: name, constructor through the public preset API, tag, parameters
+fn standard_sets() -> Vec<(&'static str, ProvingOptions, u8, Params)> {
+    vec![
+        ("blake3_96", ProvingOptions::with_96_bit_security(false), 0, REGULAR_96),
+        ("rpo_96", ProvingOptions::with_96_bit_security(true), 2, RECURSIVE_96),
+        ("blake3_128", ProvingOptions::with_128_bit_security(false), 1, REGULAR_128),
+        ("rpo_128", ProvingOptions::with_128_bit_security(true), 2, RECURSIVE_128),
+    ]
+}
+
+fn params_valid(p: &Params) -> bool {
+    // preconditions of winter_air::ProofOptions::new (it asserts them)
+    (1..=255).contains(&p.nq)
+        && p.blowup.is_power_of_two()
+        && (2..=128).contains(&p.blowup)
+        && p.grind <= 32
+        && (1..=3).contains(&p.ext)
+        && [2usize, 4, 8, 16].contains(&p.fold)
+        && (p.rem + 1).is_power_of_two()
+        && p.rem <= 255
+}
+
+fn params_options(p: &Params, tag: u8) -> ProvingOptions {
+    let ext = match p.ext {
+        1 => FieldExtension::None,
+        2 => FieldExtension::Quadratic,
+        _ => FieldExtension::Cubic,
+    };
+    ProvingOptions::new(p.nq, p.blowup, p.grind, ext, p.fold, p.rem, tag_fn(tag))
+}
+
+fn params_json(p: &Params, tag: u8) -> Value {
+    json!({"num_queries": p.nq, "blowup": p.blowup, "grinding": p.grind, "extension": p.ext,
+           "folding": p.fold, "remainder_max_degree": p.rem, "tag": tag})
+}
+
+fn params_from_json(v: &Value) -> (Params, u8) {
+    let g = |k: &str| v[k].as_u64().unwrap_or_else(|| panic!("harness: replay case lacks {k}"));
+    (
+        Params {
+            nq: g("num_queries") as usize,
+            blowup: g("blowup") as usize,
+            grind: g("grinding") as u32,
+            ext: g("extension") as u8,
+            fold: g("folding") as usize,
+            rem: g("remainder_max_degree") as usize,
+        },
+        g("tag") as u8,
+    )
+}
+
+/// all single-parameter neighbours of `p` (both directions), valid as `ProofOptions`, plus the
+/// standard sets; the caller removes what is accepted under the tag it presents them with
+fn neighbours(p: &Params) -> Vec<(String, Params)> {
+    let mut v: Vec<(String, Params)> = vec![];
+    let mut add = |what: &str, q: Params| {
+        if q != *p && params_valid(&q) {
+            v.push((what.to_string(), q));
+        }
+    };
+    add("num_queries-1", Params { nq: p.nq - 1, ..*p });
+    add("num_queries+1", Params { nq: p.nq + 1, ..*p });
+    add("blowup/2", Params { blowup: p.blowup / 2, ..*p });
+    add("blowup*2", Params { blowup: p.blowup * 2, ..*p });
+    add("grinding-1", Params { grind: p.grind - 1, ..*p });
+    add("grinding+1", Params { grind: p.grind + 1, ..*p });
+    add("grinding=0", Params { grind: 0, ..*p });
+    for e in 1..=3u8 {
+        add(&format!("extension={e}"), Params { ext: e, ..*p });
+    }
+    for f in [2usize, 4, 8, 16] {
+        add(&format!("folding={f}"), Params { fold: f, ..*p });
+    }
+    for r in [0usize, 1, 3, 7, 15, 31, 63, 127, 255] {
+        add(&format!("remainder={r}"), Params { rem: r, ..*p });
+    }
+    v
+}
+
+// ------------------------------------------------------------------------------------------------
+// base artefacts
+// ------------------------------------------------------------------------------------------------
+
+struct BaseDef {
+    name: &'static str,
+    src: &'static str,
+    kernel: Option<&'static str>,
+    stack: Vec<u64>, // top first
+    advice: Vec<u64>,
+}
+
+const KERNEL_SRC: &str = "export.kadd add end\nexport.kmul mul end\nexport.kswap swap end";
+
+fn bases() -> Vec<BaseDef> {
+    let s16: Vec<u64> = (1..=16).collect();
+    vec![
+        BaseDef { name: "plain", src: "begin push.3 push.5 mul add swap end", kernel: None, stack: vec![1, 2, 3], advice: vec![] },
+        BaseDef {
+            name: "kernel_syscall",
+            src: "begin syscall.kadd syscall.kmul push.9 syscall.kswap drop end",
+            kernel: Some(KERNEL_SRC),
+            stack: vec![2, 3, 4, 5],
+            advice: vec![],
+        },
+        // 20 inputs (4 in the overflow table at clk 0), consumed down to depth 16
+        BaseDef { name: "deep_in", src: "begin add add mul add end", kernel: None, stack: (1..=20).collect(), advice: vec![] },
+        // 16 inputs, 4 pushes never dropped: outputs of depth 20, overflow addresses = clock values
+        BaseDef { name: "deep_out", src: "begin push.21 push.22 push.23 push.24 end", kernel: None, stack: s16.clone(), advice: vec![] },
+        // 18 inputs and 2 more pushes: input overflow rows (addresses -2, -1 mod p) survive to the outputs
+        BaseDef { name: "deep_in_out", src: "begin push.7 adv_push.1 end", kernel: None, stack: (1..=18).collect(), advice: vec![77] },
+        // memory + u32 (range checker, bitwise and memory chiplets) + hasher
+        BaseDef {
+            name: "mem_u32",
+            src: "begin push.70000 mem_store.5 mem_load.5 push.65537 u32wrapping_add dup push.255 u32and swap push.3 u32div \
+                  push.1.2.3.4 mem_storew.9 dropw padw mem_loadw.9 hperm u32split drop end",
+            kernel: None,
+            stack: vec![9, 8, 7],
+            advice: vec![],
+        },
+    ]
+}
+
+/// a public statement in harness terms (plain integers), so that it can be altered, compared and
+/// written into a replay file without going through the types under test
+#[derive(Clone, PartialEq, Eq, Hash, Debug)]
+struct Stmt {
+    hash: [u64; 4],
+    kernel: Vec<[u64; 4]>,
+    inputs: Vec<u64>,     // top first, as `StackInputs::values()`
+    out_stack: Vec<u64>,  // top first, as `StackOutputs::stack()`
+    out_addrs: Vec<u64>,  // as `StackOutputs::overflow_addrs()`
+}
+
+fn dig(d: &Digest) -> [u64; 4] {
+    let e = d.as_elements();
+    [e[0].as_int(), e[1].as_int(), e[2].as_int(), e[3].as_int()]
+}
+
+fn undig(d: &[u64; 4]) -> Digest {
+    Digest::new([Felt::new(d[0]), Felt::new(d[1]), Felt::new(d[2]), Felt::new(d[3])])
+}
+
+type Built = (ProgramInfo, miden::StackInputs, StackOutputs);
+
+impl Stmt {
+    /// constructs the objects `verify` takes, through their public constructors
+    fn build(&self) -> Result<Built, String> {
+        let procs: Vec<Digest> = self.kernel.iter().map(undig).collect();
+        let kernel = Kernel::new(&procs).map_err(|e| format!("Kernel::new: {e:?}"))?;
+        let info = ProgramInfo::new(undig(&self.hash), kernel);
+        let inputs = stack_inputs(&self.inputs);
+        let outputs = StackOutputs::new(self.out_stack.clone(), self.out_addrs.clone())
+            .map_err(|e| format!("StackOutputs::new: {e:?}"))?;
+        Ok((info, inputs, outputs))
+    }
+
+    /// what the constructed objects actually contain, read back through their accessors (not
+    /// through `to_elements`, which is part of what is being checked). Stack inputs of at most 16
+    /// elements denote the same initial stack with or without deep zeros, so those are stripped.
+    fn canon_of(b: &Built) -> Stmt {
+        let mut inputs = ints(b.1.values());
+        if inputs.len() <= 16 {
+            while inputs.last() == Some(&0) {
+                inputs.pop();
+            }
+        }
+        Stmt {
+            hash: dig(b.0.program_hash()),
+            kernel: b.0.kernel().proc_hashes().iter().map(dig).collect(),
+            inputs,
+            out_stack: b.2.stack().to_vec(),
+            out_addrs: b.2.overflow_addrs().to_vec(),
+        }
+    }
+
+    fn to_json(&self) -> Value {
+        json!({"program_hash": self.hash, "kernel": self.kernel, "stack_inputs_top_first": self.inputs,
+               "stack_outputs": self.out_stack, "overflow_addrs": self.out_addrs})
+    }
+}
+
+struct Base {
+    def: BaseDef,
+    program: miden::Program,
+    stmt: Stmt,
+    /// a digest that is neither this program's hash nor one of its kernel procedures
+    foreign: [u64; 4],
+}
+
+struct Tuple {
+    base: usize,
+    opt: String,
+    /// Some((params, tag)) if proved under non-standard options
+    custom: Option<(Params, u8)>,
+    proof: ExecutionProof,
+    bytes: Vec<u8>,
+    layout: Vec<Region>,
+}
+
+fn compile(def: &BaseDef) -> miden::Program {
+    let asm = match def.kernel {
+        Some(k) => assembler_with_kernel(k),
+        None => assembler(),
+    };
+    asm.compile(def.src).unwrap_or_else(|e| panic!("harness: base program {} must assemble: {e}", def.name))
+}
+
+fn prove_base(def: &BaseDef, program: &miden::Program, options: ProvingOptions) -> Result<Result<(StackOutputs, ExecutionProof), String>, String> {
+    let si = stack_inputs(&def.stack);
+    let h = host(&def.advice);
+    guard::catch(|| prove(program, si, h, options).map_err(|e| format!("{e:?}")))
+}
+
+fn make_bases() -> Vec<Base> {
+    let defs = bases();
+    let programs: Vec<miden::Program> = defs.iter().map(compile).collect();
+    let hashes: Vec<[u64; 4]> = programs.iter().map(|p| dig(&p.hash())).collect();
+    defs.into_iter()
+        .zip(programs)
+        .enumerate()
+        .map(|(i, (def, program))| {
+            // outputs as reported by execution
+            let trace = exec_trace(&program, &def.stack, processor::AdviceInputs::default().with_stack(felts(&def.advice)), Default::default())
+                .unwrap_or_else(|p| panic!("harness: base {} panicked in execute: {p}", def.name))
+                .unwrap_or_else(|e| panic!("harness: base {} must execute: {e:?}", def.name));
+            let so = trace.stack_outputs().clone();
+            let stmt = Stmt {
+                hash: hashes[i],
+                kernel: program.kernel().proc_hashes().iter().map(dig).collect(),
+                inputs: def.stack.clone(),
+                out_stack: so.stack().to_vec(),
+                out_addrs: so.overflow_addrs().to_vec(),
+            };
+            let foreign = hashes[(i + 1) % hashes.len()];
+            assert!(foreign != stmt.hash && !stmt.kernel.contains(&foreign), "harness: foreign digest collides");
+            Base { def, program, stmt, foreign }
+        })
+        .collect()
+}
+
+// ------------------------------------------------------------------------------------------------
+// layout of a serialised proof (from winter-air 0.8.3 `StarkProof::write_into`, `Context`,
+// `TraceLayout`, `ProofOptions`, `Commitments`, `Queries`, `OodFrame`; winter-fri `FriProof`)
+// ------------------------------------------------------------------------------------------------
+
+#[derive(Clone, Debug)]
+struct Region {
+    start: usize,
+    end: usize,
+    name: String,
+    /// true for counts, length prefixes, option bytes, tags: everything that is not bulk payload
+    scalar: bool,
+}
+
+fn layout(b: &[u8]) -> Vec<Region> {
+    struct Cur<'a> {
+        b: &'a [u8],
+        pos: usize,
+        out: Vec<Region>,
+    }
+    impl<'a> Cur<'a> {
+        fn take(&mut self, n: usize, name: &str, scalar: bool) -> &'a [u8] {
+            assert!(self.pos + n <= self.b.len(), "harness: honest proof does not parse at {name}");
+            let s = &self.b[self.pos..self.pos + n];
+            if n > 0 {
+                self.out.push(Region { start: self.pos, end: self.pos + n, name: name.to_string(), scalar });
+            }
+            self.pos += n;
+            s
+        }
+        fn u8(&mut self, name: &str) -> usize {
+            self.take(1, name, true)[0] as usize
+        }
+        fn u16(&mut self, name: &str) -> usize {
+            let s = self.take(2, name, true);
+            u16::from_le_bytes([s[0], s[1]]) as usize
+        }
+        fn u32(&mut self, name: &str) -> usize {
+            let s = self.take(4, name, true);
+            u32::from_le_bytes([s[0], s[1], s[2], s[3]]) as usize
+        }
+        fn queries(&mut self, name: &str) {
+            let n = self.u32(&format!("{name}.values_len"));
+            self.take(n, &format!("{name}.values"), false);
+            let n = self.u32(&format!("{name}.paths_len"));
+            self.take(n, &format!("{name}.paths"), false);
+        }
+    }
+    let mut c = Cur { b, pos: 0, out: vec![] };
+    c.u8("hash_fn");
+    c.u8("context.trace_layout.main_width");
+    let aux_w = c.u8("context.trace_layout.aux_width");
+    c.u8("context.trace_layout.aux_rands");
+    c.u8("context.trace_length_log2");
+    let n = c.u16("context.trace_meta_len");
+    c.take(n, "context.trace_meta", false);
+    let n = c.u8("context.field_modulus_len");
+    c.take(n, "context.field_modulus", true);
+    c.u8("context.options.num_queries");
+    c.u8("context.options.blowup_factor");
+    c.u8("context.options.grinding_factor");
+    c.u8("context.options.field_extension");
+    c.u8("context.options.fri_folding_factor");
+    c.u8("context.options.fri_remainder_max_degree");
+    c.u8("num_unique_queries");
+    let n = c.u16("commitments.len");
+    c.take(n, "commitments.data", false);
+    c.queries("trace_queries.main");
+    if aux_w != 0 {
+        c.queries("trace_queries.aux");
+    }
+    c.queries("constraint_queries");
+    let n = c.u16("ood_frame.trace_states_len");
+    c.take(n, "ood_frame.trace_states", false);
+    let n = c.u16("ood_frame.evaluations_len");
+    c.take(n, "ood_frame.evaluations", false);
+    let layers = c.u8("fri.num_layers");
+    for _ in 0..layers {
+        c.queries("fri.layer");
+    }
+    let n = c.u16("fri.remainder_len");
+    c.take(n, "fri.remainder", false);
+    c.u8("fri.num_partitions");
+    c.take(8, "pow_nonce", true);
+    assert!(c.pos == b.len(), "harness: honest proof has {} unparsed trailing bytes", b.len() - c.pos);
+    c.out
+}
+
+fn region_at(l: &[Region], off: usize) -> &Region {
+    l.iter().find(|r| r.start <= off && off < r.end).expect("harness: offset outside proof")
+}
+
+/// The first scalar field (in stream order) of possibly corrupted proof bytes whose value lies
+/// outside the domain winterfell's readers assume; this names the *cause* of a panic independently
+/// of which byte was flipped (a flipped length prefix shifts every later field onto other data).
+fn parsed_cause(b: &[u8]) -> &'static str {
+    struct R<'a>(&'a [u8], usize);
+    impl<'a> R<'a> {
+        fn take(&mut self, n: usize) -> Option<&'a [u8]> {
+            let s = self.0.get(self.1..self.1.checked_add(n)?)?;
+            self.1 += n;
+            Some(s)
+        }
+        fn u8(&mut self) -> Option<usize> {
+            Some(self.take(1)?[0] as usize)
+        }
+        fn u16(&mut self) -> Option<usize> {
+            let s = self.take(2)?;
+            Some(u16::from_le_bytes([s[0], s[1]]) as usize)
+        }
+        fn u32(&mut self) -> Option<usize> {
+            let s = self.take(4)?;
+            Some(u32::from_le_bytes([s[0], s[1], s[2], s[3]]) as usize)
+        }
+        fn queries(&mut self) -> Option<()> {
+            let n = self.u32()?;
+            self.take(n)?;
+            let n = self.u32()?;
+            self.take(n)?;
+            Some(())
+        }
+    }
+    fn walk(r: &mut R) -> Option<&'static str> {
+        r.u8()?; // tag
+        r.u8()?;
+        let aux_w = r.u8()?;
+        r.u8()?;
+        let tl = r.u8()?;
+        if tl >= 64 {
+            return Some("trace_length_log2>=64");
+        }
+        if tl >= 32 {
+            return Some("trace_length_log2>=32");
+        }
+        let n = r.u16()?;
+        r.take(n)?;
+        let n = r.u8()?;
+        r.take(n)?;
+        let o = r.take(6)?;
+        let p = Params { nq: o[0] as usize, blowup: o[1] as usize, grind: o[2] as u32, ext: o[3], fold: o[4] as usize, rem: o[5] as usize };
+        if (1..=3).contains(&p.ext) && !params_valid(&p) {
+            return Some("invalid_proof_options");
+        }
+        r.u8()?;
+        let n = r.u16()?;
+        r.take(n)?;
+        r.queries()?;
+        if aux_w != 0 {
+            r.queries()?;
+        }
+        r.queries()?;
+        let n = r.u16()?;
+        r.take(n)?;
+        let n = r.u16()?;
+        r.take(n)?;
+        let layers = r.u8()?;
+        for _ in 0..layers {
+            r.queries()?;
+        }
+        let n = r.u16()?;
+        r.take(n)?;
+        if r.u8()? >= 64 {
+            return Some("num_partitions_log2>=64");
+        }
+        None
+    }
+    walk(&mut R(b, 0)).unwrap_or("other")
+}
+
+fn option_bytes_offset(l: &[Region]) -> usize {
+    l.iter().find(|r| r.name == "context.options.num_queries").expect("harness: no options region").start
+}
+
+// ------------------------------------------------------------------------------------------------
+// observation and oracle
+// ------------------------------------------------------------------------------------------------
+
+#[derive(Clone, Debug)]
+enum Obs {
+    Rejected(String),
+    Accepted(u32),
+    Panic(String),
+    /// the deviation does not produce a different, constructible object: not a case
+    Skipped(String),
+}
+
+fn variant(s: &str) -> String {
+    s.split(|c: char| c == '(' || c == ')' || c == '{' || c == ' ' || c == ':').next().unwrap_or("").to_string()
+}
+
+fn verify_built(b: Built, proof: ExecutionProof) -> Obs {
+    match guard::catch(move || verify(b.0, b.1, b.2, proof)) {
+        Err(p) => Obs::Panic(p),
+        Ok(Ok(level)) => Obs::Accepted(level),
+        Ok(Err(e)) => {
+            let d = format!("{e:?}");
+            // VerifierError(X(..)) -> verify:X
+            let inner = d.strip_prefix("VerifierError(").unwrap_or(&d);
+            Obs::Rejected(format!("verify:{}", variant(inner)))
+        }
+    }
+}
+
+fn verify_bytes(stmt: &Stmt, bytes: &[u8]) -> Obs {
+    match guard::catch(|| ExecutionProof::from_bytes(bytes)) {
+        Err(p) => Obs::Panic(format!("from_bytes: {p}")),
+        Ok(Err(e)) => Obs::Rejected(format!("from_bytes:{}", variant(&format!("{e:?}")))),
+        Ok(Ok(proof)) => match stmt.build() {
+            Err(e) => panic!("harness: honest statement must build: {e}"),
+            Ok(b) => verify_built(b, proof),
+        },
+    }
+}
+
+const P64: u64 = P;
+
+fn delta(x: u64, how: &str) -> Option<u64> {
+    match how {
+        "+1" => Some(if x == P64 - 1 { 0 } else { x + 1 }),
+        "-1" => Some(if x == 0 { P64 - 1 } else { x - 1 }),
+        "0<->1" => Some(if x == 0 { 1 } else { 0 }),
+        _ => panic!("harness: unknown delta {how}"),
+    }
+}
+
+const HOWS: [&str; 3] = ["+1", "-1", "0<->1"];
+
+/// every single deviation of a statement, as descriptors (simplest first)
+fn stmt_devs(s: &Stmt) -> Vec<Value> {
+    let mut v = vec![];
+    for i in 0..4 {
+        for how in ["+1", "-1", "other_program"] {
+            v.push(json!({"field": "program_hash", "i": i, "how": how}));
+        }
+    }
+    for i in 0..s.kernel.len() {
+        v.push(json!({"field": "kernel.remove", "i": i}));
+    }
+    v.push(json!({"field": "kernel.add"}));
+    for i in 0..s.kernel.len() {
+        v.push(json!({"field": "kernel.replace", "i": i}));
+        for e in 0..4 {
+            v.push(json!({"field": "kernel.proc_elem", "i": i, "e": e, "how": "+1"}));
+        }
+    }
+    for pos in 0..s.inputs.len() {
+        for how in HOWS {
+            v.push(json!({"field": "stack_inputs.value", "pos": pos, "how": how}));
+        }
+    }
+    // positions that are implicit zeros of a short input vector
+    for pos in s.inputs.len()..16 {
+        v.push(json!({"field": "stack_inputs.implicit_zero", "pos": pos}));
+    }
+    v.push(json!({"field": "stack_inputs.drop_deepest"}));
+    v.push(json!({"field": "stack_inputs.drop_top"}));
+    for val in [0u64, 1] {
+        v.push(json!({"field": "stack_inputs.append_deepest", "value": val}));
+        v.push(json!({"field": "stack_inputs.append_top", "value": val}));
+    }
+    for pos in 0..s.out_stack.len() {
+        for how in HOWS {
+            let field = if pos < 16 { "stack_outputs.top" } else { "stack_outputs.overflow_value" };
+            v.push(json!({"field": field, "pos": pos, "how": how}));
+        }
+    }
+    for i in 0..s.out_addrs.len() {
+        for how in ["+1", "-1"] {
+            v.push(json!({"field": "stack_outputs.overflow_addr", "i": i, "how": how}));
+        }
+    }
+    v.push(json!({"field": "stack_outputs.drop_deepest"}));
+    for val in [0u64, 1] {
+        v.push(json!({"field": "stack_outputs.add_deepest", "value": val}));
+    }
+    v
+}
+
+/// applies one deviation; None = the descriptor does not apply to this statement
+fn apply_dev(s: &Stmt, d: &Value, foreign: &[u64; 4]) -> Option<Stmt> {
+    let mut t = s.clone();
+    let idx = |k: &str| d[k].as_u64().map(|x| x as usize);
+    let how = d["how"].as_str().unwrap_or("");
+    match d["field"].as_str().expect("harness: deviation without field") {
+        "program_hash" => {
+            let i = idx("i")?;
+            t.hash[i] = if how == "other_program" { foreign[i] } else { delta(t.hash[i], how)? };
+        }
+        "kernel.remove" => {
+            let i = idx("i")?;
+            if i >= t.kernel.len() {
+                return None;
+            }
+            t.kernel.remove(i);
+        }
+        "kernel.add" => t.kernel.push(*foreign),
+        "kernel.replace" => {
+            let i = idx("i")?;
+            *t.kernel.get_mut(i)? = *foreign;
+        }
+        "kernel.proc_elem" => {
+            let (i, e) = (idx("i")?, idx("e")?);
+            let p = t.kernel.get_mut(i)?;
+            p[e] = delta(p[e], how)?;
+        }
+        "stack_inputs.value" => {
+            let x = t.inputs.get_mut(idx("pos")?)?;
+            *x = delta(*x, how)?;
+        }
+        "stack_inputs.implicit_zero" => {
+            let pos = idx("pos")?;
+            if pos < t.inputs.len() || pos >= 16 {
+                return None;
+            }
+            t.inputs.resize(pos + 1, 0);
+            t.inputs[pos] = 1;
+        }
+        "stack_inputs.drop_deepest" => {
+            t.inputs.pop()?;
+        }
+        "stack_inputs.drop_top" => {
+            if t.inputs.is_empty() {
+                return None;
+            }
+            t.inputs.remove(0);
+        }
+        "stack_inputs.append_deepest" => t.inputs.push(d["value"].as_u64()?),
+        "stack_inputs.append_top" => t.inputs.insert(0, d["value"].as_u64()?),
+        "stack_outputs.top" | "stack_outputs.overflow_value" => {
+            let x = t.out_stack.get_mut(idx("pos")?)?;
+            *x = delta(*x, how)?;
+        }
+        "stack_outputs.overflow_addr" => {
+            let x = t.out_addrs.get_mut(idx("i")?)?;
+            *x = delta(*x, how)?;
+        }
+        "stack_outputs.drop_deepest" => {
+            // keep the address vector well-formed: len(addrs) = len(stack) - 15, or 0 at depth 16
+            if t.out_stack.len() <= 16 {
+                // dropping a padding position: StackOutputs::new pads it back (skipped as equal)
+                t.out_stack.pop()?;
+            } else {
+                t.out_stack.pop();
+                t.out_addrs.pop();
+                if t.out_stack.len() == 16 {
+                    t.out_addrs.clear();
+                }
+            }
+        }
+        "stack_outputs.add_deepest" => {
+            let val = d["value"].as_u64()?;
+            if t.out_stack.len() < 16 {
+                t.out_stack.resize(16, 0);
+            }
+            t.out_stack.push(val);
+            if t.out_addrs.is_empty() {
+                t.out_addrs = vec![0, 1];
+            } else {
+                let last = *t.out_addrs.last().unwrap();
+                t.out_addrs.push(delta(last, "+1")?);
+            }
+        }
+        f => panic!("harness: unknown deviation field {f}"),
+    }
+    Some(t)
+}
+
+fn dev_class(d: &Value) -> String {
+    d["field"].as_str().unwrap_or("?").to_string()
+}
+
+/// statement deviation(s) against an honest proof. Returns (altered canonical statement, obs).
+fn eval_stmt(base: &Base, proof: &ExecutionProof, devs: &[Value]) -> (Option<Stmt>, Obs) {
+    let mut cur = base.stmt.clone();
+    for d in devs {
+        match apply_dev(&cur, d, &base.foreign) {
+            Some(t) => cur = t,
+            None => return (None, Obs::Skipped("not_applicable".into())),
+        }
+    }
+    let built = match guard::catch(|| cur.build()) {
+        Err(p) => return (None, Obs::Panic(format!("constructor: {p}"))),
+        Ok(Err(e)) => return (None, Obs::Skipped(format!("unconstructible:{}", variant(&e)))),
+        Ok(Ok(b)) => b,
+    };
+    let canon = Stmt::canon_of(&built);
+    let honest = Stmt::canon_of(&base.stmt.build().expect("harness: honest statement must build"));
+    if canon == honest {
+        return (None, Obs::Skipped("equal_after_construction".into()));
+    }
+    (Some(canon), verify_built(built, proof.clone()))
+}
+
+// ------------------------------------------------------------------------------------------------
+// cases
+// ------------------------------------------------------------------------------------------------
+
+/// One deviation case = (tuple, descriptor). `class` is the histogram key.
+#[derive(Clone)]
+struct Case {
+    tuple: usize,
+    class: String,
+    dev: Dev,
+}
+
+/// deviation descriptor; the two bulk classes are kept unboxed (millions of them in thorough)
+#[derive(Clone)]
+enum Dev {
+    J(Value),
+    Flip(usize, u8),
+    Trunc(usize),
+}
+
+impl Dev {
+    fn json(&self) -> Value {
+        match self {
+            Dev::J(v) => v.clone(),
+            Dev::Flip(off, bit) => json!({"kind": "flip", "offset": off, "bit": bit}),
+            Dev::Trunc(len) => json!({"kind": "truncate", "len": len}),
+        }
+    }
+    fn from_json(v: &Value) -> Dev {
+        match v["kind"].as_str() {
+            Some("flip") => Dev::Flip(v["offset"].as_u64().expect("offset") as usize, v["bit"].as_u64().expect("bit") as u8),
+            Some("truncate") => Dev::Trunc(v["len"].as_u64().expect("len") as usize),
+            _ => Dev::J(v.clone()),
+        }
+    }
+}
+
+fn norm_panic(msg: &str) -> String {
+    // digits inside the message are operand values; the location keeps its line number
+    let s = guard::short_panic(msg);
+    let (m, loc) = match s.rfind(" @ ") {
+        Some(i) => (s[..i].to_string(), s[i..].to_string()),
+        None => (s.clone(), String::new()),
+    };
+    let mut out = String::new();
+    let mut in_digits = false;
+    for ch in m.chars() {
+        if ch.is_ascii_digit() {
+            if !in_digits {
+                out.push('N');
+            }
+            in_digits = true;
+        } else {
+            in_digits = false;
+            out.push(ch);
+        }
+    }
+    out + &loc
+}
+
+struct World {
+    bases: Vec<Base>,
+    tuples: Vec<Tuple>,
+}
+
+fn eval_dev(w: &World, ti: usize, dev: &Dev) -> (Option<Stmt>, Obs) {
+    let t = &w.tuples[ti];
+    let base = &w.bases[t.base];
+    let d = match dev {
+        Dev::Flip(off, bit) => {
+            let mut b = t.bytes.clone();
+            b[*off] ^= 1u8 << bit;
+            return (None, verify_bytes(&base.stmt, &b));
+        }
+        Dev::Trunc(len) => return (None, verify_bytes(&base.stmt, &t.bytes[..*len])),
+        Dev::J(d) => d,
+    };
+    match d["kind"].as_str().expect("harness: case without kind") {
+        "honest" => (None, verify_bytes(&base.stmt, &t.bytes)),
+        "statement" => {
+            let devs: Vec<Value> = d["devs"].as_array().expect("devs").clone();
+            eval_stmt(base, &t.proof, &devs)
+        }
+        "tag_relabel" => {
+            let to = d["to"].as_u64().unwrap() as u8;
+            let (_, stark) = t.proof.clone().into_parts();
+            let p = ExecutionProof::new(stark, tag_fn(to));
+            (None, verify_built(base.stmt.build().expect("honest"), p))
+        }
+        "tag_byte" => {
+            let mut b = t.bytes.clone();
+            b[0] = d["to"].as_u64().unwrap() as u8;
+            (None, verify_bytes(&base.stmt, &b))
+        }
+        "options_proved" => (None, verify_bytes(&base.stmt, &t.bytes)),
+        "options_relabel" => {
+            let (p, _) = params_from_json(&d["params"]);
+            let mut b = t.bytes.clone();
+            let o = option_bytes_offset(&t.layout);
+            b[o..o + 6].copy_from_slice(&[p.nq as u8, p.blowup as u8, p.grind as u8, p.ext, p.fold as u8, p.rem as u8]);
+            (None, verify_bytes(&base.stmt, &b))
+        }
+        k => panic!("harness: unknown case kind {k}"),
+    }
+}
+
+fn hash_fn_name(t: &Tuple) -> &'static str {
+    TAGS.iter().find(|(tg, _)| *tg == t.bytes[0]).map(|x| x.1).unwrap_or("?")
+}
+
+/// the oracle: reports anything that is not a rejection. Returns the histogram key of the outcome.
+fn judge(ctx: &Ctx, w: &World, ti: usize, class: &str, dev: &Dev, obs: &Obs) -> String {
+    match obs {
+        Obs::Rejected(stage) => return format!("rejected:{stage}"),
+        Obs::Skipped(why) => return format!("skipped:{why}"),
+        _ => {}
+    }
+    let t = &w.tuples[ti];
+    let base = &w.bases[t.base];
+    let hash_fn = hash_fn_name(t);
+    let dj = dev.json();
+    let kind = dj["kind"].as_str().unwrap_or("?").to_string();
+    if kind == "honest" {
+        if let Obs::Accepted(_) = obs {
+            return "accepted".into();
+        }
+    }
+    let region = match dev {
+        Dev::Flip(off, _) => Some(region_at(&t.layout, *off).name.clone()),
+        Dev::Trunc(len) => Some(region_at(&t.layout, *len).name.clone()),
+        _ if kind == "tag_byte" => Some("hash_fn".to_string()),
+        _ if kind == "options_relabel" => Some("context.options".to_string()),
+        _ => None,
+    };
+    let case = json!({
+        "base": base.def.name, "src": base.def.src, "kernel": base.def.kernel, "stack_top_first": base.def.stack,
+        "advice": base.def.advice, "opt": t.opt,
+        "custom_options": t.custom.map(|(p, tag)| params_json(&p, tag)),
+        "proof_len": t.bytes.len(), "proof_blake3": blake3::hash(&t.bytes).to_hex().to_string(),
+        "honest_statement": base.stmt.to_json(),
+        "class": class,
+        "dev": dj,
+    });
+    let mut sig = json!({"class": class, "hash_fn": hash_fn});
+    if let Some(r) = &region {
+        sig["region"] = json!(r);
+    }
+    let (key, summary) = match obs {
+        Obs::Accepted(level) => {
+            sig["kind"] = json!("accepted");
+            ("ACCEPTED", format!("{}/{}: {} => verify returned Ok({level})", base.def.name, t.opt, dj))
+        }
+        Obs::Panic(p) => {
+            sig["kind"] = json!("panic");
+            let mutated: Option<Vec<u8>> = match dev {
+                Dev::Flip(off, bit) => {
+                    let mut b = t.bytes.clone();
+                    b[*off] ^= 1u8 << bit;
+                    Some(b)
+                }
+                Dev::Trunc(len) => Some(t.bytes[..*len].to_vec()),
+                _ => None,
+            };
+            if let Some(b) = mutated {
+                sig["cause"] = json!(parsed_cause(&b));
+            }
+            let np = norm_panic(p);
+            // where it panicked: "from_bytes" or "verify"; and the source file without the line
+            sig["stage"] = json!(if np.starts_with("from_bytes: ") { "from_bytes" } else if np.starts_with("constructor: ") { "constructor" } else { "verify" });
+            let file = np.rsplit_once(" @ ").map(|x| x.1).unwrap_or("?");
+            let file = file.rsplit_once(':').map(|x| x.0).unwrap_or(file);
+            let file = if file.starts_with("/rustc/") { file.split_once("/library/").map(|x| x.1).unwrap_or(file) } else { file };
+            sig["panic_file"] = json!(file);
+            // the message without the location (library/core line numbers differ between toolchains)
+            sig["panic"] = json!(if np.contains(" @ /rustc/") { np.split(" @ ").next().unwrap_or(&np).to_string() } else { np.clone() });
+            ("PANIC", format!("{}/{}: {} => panic: {}", base.def.name, t.opt, dj, guard::short_panic(p)))
+        }
+        o => {
+            sig["kind"] = json!("honest_rejected");
+            ("HONEST_REJECTED", format!("honest tuple {}/{} does not verify: {o:?}", base.def.name, t.opt))
+        }
+    };
+    // tally of failures by (kind, tag, region, site) with the set of failing bits / byte values
+    let k = format!("{}|{}|{}|{}", sig["kind"].as_str().unwrap(), hash_fn, region.as_deref().unwrap_or(class), sig["panic"].as_str().unwrap_or("-"));
+    let what = match dev {
+        Dev::Flip(_, b) => format!("bit{b}"),
+        Dev::Trunc(l) => format!("len{l}"),
+        Dev::J(d) => d["to"].as_u64().map(|x| format!("to{x}")).unwrap_or_else(|| "-".into()),
+    };
+    {
+        let mut g = FAIL_TALLY.lock().unwrap();
+        let e = g.entry(k).or_insert((0, BTreeSet::new()));
+        e.0 += 1;
+        if e.1.len() < 16 {
+            e.1.insert(what);
+        }
+    }
+    ctx.fail(sig, summary, case);
+    key.into()
+}
+
+// ------------------------------------------------------------------------------------------------
+// building the world
+// ------------------------------------------------------------------------------------------------
+
+fn make_tuple(bases: &[Base], bi: usize, opt: &str, options: ProvingOptions, custom: Option<(Params, u8)>) -> Result<Tuple, String> {
+    let b = &bases[bi];
+    let (so, proof) = match prove_base(&b.def, &b.program, options) {
+        Err(p) => return Err(format!("prove panicked: {}", guard::short_panic(&p))),
+        Ok(Err(e)) => return Err(format!("prove failed: {e}")),
+        Ok(Ok(x)) => x,
+    };
+    if custom.is_none() {
+        assert!(
+            so.stack() == &b.stmt.out_stack[..] && so.overflow_addrs() == &b.stmt.out_addrs[..],
+            "harness: prove and execute disagree on the outputs of base {} (that is C01's business)",
+            b.def.name
+        );
+    }
+    let bytes = proof.to_bytes();
+    let layout = layout(&bytes);
+    Ok(Tuple { base: bi, opt: opt.to_string(), custom, proof, bytes, layout })
+}
+
+fn option_names(tier: Tier) -> Vec<&'static str> {
+    match tier {
+        Tier::Quick => vec!["blake3_96", "rpo_96"],
+        Tier::Thorough => vec!["blake3_96", "rpo_96", "blake3_128", "rpo_128"],
+    }
+}
+
+/// (what, params, tag presented) for every non-accepted neighbour of the accepted sets in scope
+fn neighbour_specs(tier: Tier) -> Vec<(String, Params, u8)> {
+    let in_scope: Vec<(u8, Params)> = standard_sets()
+        .into_iter()
+        .filter(|s| option_names(tier).contains(&s.0))
+        .map(|s| (s.2, s.3))
+        .collect();
+    let mut seen = BTreeSet::new();
+    let mut out = vec![];
+    for (tag, p) in &in_scope {
+        let mut cands = neighbours(p);
+        // the standard sets presented under a tag that does not accept them
+        for (name, q) in [("REGULAR_96", REGULAR_96), ("REGULAR_128", REGULAR_128), ("RECURSIVE_96", RECURSIVE_96), ("RECURSIVE_128", RECURSIVE_128)] {
+            cands.push((format!("standard:{name}"), q));
+        }
+        for (what, q) in cands {
+            if accepted_under(*tag).contains(&q) || !params_valid(&q) {
+                continue;
+            }
+            if seen.insert((*tag, q)) {
+                out.push((what, q, *tag));
+            }
+        }
+    }
+    out
+}
+
+const ALL_BITS: [u8; 8] = [0, 1, 2, 3, 4, 5, 6, 7];
+const END_BITS: [u8; 2] = [0, 7];
+
+/// which bits of byte `off` are flipped for this tuple in this tier (the stated plan)
+fn flip_bits(tier: Tier, w: &World, t: &Tuple, off: usize) -> &'static [u8] {
+    let n = t.bytes.len();
+    let rpo = t.bytes[0] == 2;
+    // the one RPO proof that gets the every-bit sweep in thorough (an RPO verification costs ~6 ms)
+    let plain = w.bases[t.base].def.name == "plain" && (tier == Tier::Quick || t.opt == "rpo_96");
+    let structural = off < 64 || off + 64 >= n || region_at(&t.layout, off).scalar;
+    match tier {
+        Tier::Thorough => {
+            if !rpo || plain || structural {
+                &ALL_BITS
+            } else if off % 4 == 0 {
+                &END_BITS
+            } else {
+                &[]
+            }
+        }
+        Tier::Quick => {
+            if structural {
+                &ALL_BITS
+            } else if !rpo || (plain && off % 4 == 0) || off % 16 == 0 {
+                &END_BITS
+            } else {
+                &[]
+            }
+        }
+    }
+}
+
+fn flip_plan_text(tier: Tier) -> &'static str {
+    tier.pick(
+        "every bit of the first 64 and last 64 bytes and of every scalar field (tag, counts, length prefixes, option bytes, nonce) of every proof; \
+         Blake3 proofs (all 6 bases): bits 0 and 7 of every byte; RPO proofs: bits 0 and 7 of every 4th byte (base plain) / every 16th byte (other bases)",
+        "Blake3-192 and Blake3-256 proofs (all 6 bases) and the RPO-96 proof of base plain: every bit of every byte; the other 11 RPO proofs: \
+         bits 0 and 7 of every 4th byte plus every bit of the first/last 64 bytes and of every scalar field",
+    )
+}
+
+fn trunc_in_plan(tier: Tier, t: &Tuple, len: usize) -> bool {
+    let n = t.bytes.len();
+    tier == Tier::Thorough || len < 128 || len % 97 == 0 || len + 16 >= n || region_at(&t.layout, len).scalar
+}
+
+type Hist = BTreeMap<String, (u64, u64)>;
+
+static FAIL_TALLY: std::sync::Mutex<BTreeMap<String, (u64, BTreeSet<String>)>> = std::sync::Mutex::new(BTreeMap::new());
+
+fn merge(mut a: Hist, b: Hist) -> Hist {
+    for (k, v) in b {
+        let e = a.entry(k).or_insert((0, 0));
+        e.0 += v.0;
+        e.1 += v.1;
+    }
+    a
+}
+
+fn run_one(ctx: &Ctx, w: &World, ti: usize, class: &str, dev: &Dev, m: &mut Hist) {
+    let t0 = std::time::Instant::now();
+    let (_, obs) = eval_dev(w, ti, dev);
+    let ns = t0.elapsed().as_nanos() as u64;
+    let key = judge(ctx, w, ti, class, dev, &obs);
+    let e = m.entry(format!("{class} [{}] => {key}", hash_fn_name(&w.tuples[ti]))).or_insert((0, 0));
+    e.0 += 1;
+    e.1 += ns;
+}
+
+pub fn run(ctx: &Ctx, replay: Option<&Value>) -> i32 {
+    if let Some(case) = replay {
+        return run_replay(ctx, case);
+    }
+    let tier = ctx.tier;
+    let bases = make_bases();
+
+    // ---- honest tuples -------------------------------------------------------------------------
+    let std_sets = standard_sets();
+    let mut jobs: Vec<(usize, String, Option<(Params, u8)>)> = vec![];
+    for bi in 0..bases.len() {
+        for name in option_names(tier) {
+            jobs.push((bi, name.to_string(), None));
+        }
+    }
+    let n_honest = jobs.len();
+    // ---- proofs under non-accepted neighbours (base plain; thorough: also deep_out) ---------------
+    let specs = neighbour_specs(tier);
+    let nb_bases: Vec<usize> = tier.pick(vec![0], vec![0, 3]);
+    for &bi in &nb_bases {
+        for (what, p, tag) in &specs {
+            jobs.push((bi, format!("{}@{}", what, TAGS[*tag as usize].1), Some((*p, *tag))));
+        }
+    }
+    let t_prove = std::time::Instant::now();
+    let made: Vec<Result<Tuple, String>> = jobs
+        .par_iter()
+        .map(|(bi, name, custom)| {
+            let options = match custom {
+                None => std_sets.iter().find(|s| s.0 == name).expect("harness: option set").1.clone(),
+                Some((p, tag)) => params_options(p, *tag),
+            };
+            make_tuple(&bases, *bi, name, options, *custom)
+        })
+        .collect();
+    let prove_s = t_prove.elapsed().as_secs_f64();
+    let mut tuples = vec![];
+    let mut unprovable: Vec<Value> = vec![];
+    for (i, r) in made.into_iter().enumerate() {
+        match r {
+            Ok(t) => tuples.push(t),
+            Err(e) => {
+                if i < n_honest {
+                    panic!("harness: honest base {} under {} cannot be proved: {e} (that is C01's business)", bases[jobs[i].0].def.name, jobs[i].1);
+                }
+                unprovable.push(json!({"base": bases[jobs[i].0].def.name, "options": jobs[i].1, "why": e.chars().take(160).collect::<String>()}));
+            }
+        }
+    }
+    let w = World { bases, tuples };
+
+    // ---- enumerate the small classes -------------------------------------------------------------------
+    let mut cases: Vec<Case> = vec![];
+    let mut dup_stmt = 0u64;
+    let mut skipped_hist: BTreeMap<String, u64> = BTreeMap::new();
+    for (ti, t) in w.tuples.iter().enumerate() {
+        let base = &w.bases[t.base];
+        if let Some((p, tag)) = t.custom {
+            cases.push(Case { tuple: ti, class: "options_proved".into(), dev: Dev::J(json!({"kind": "options_proved", "what": t.opt, "params": params_json(&p, tag)})) });
+            continue;
+        }
+        cases.push(Case { tuple: ti, class: "honest".into(), dev: Dev::J(json!({"kind": "honest"})) });
+
+        // statement: singles (de-duplicated on the altered canonical statement), pairs in thorough
+        let singles = stmt_devs(&base.stmt);
+        let mut seen: HashSet<Stmt> = HashSet::new();
+        let honest_canon = Stmt::canon_of(&base.stmt.build().expect("harness: honest statement must build"));
+        let mut pre = |devs: Vec<Value>, class: String, cases: &mut Vec<Case>| {
+            // cheap pre-pass without verification: applicability, constructibility, difference, duplicates
+            let mut cur = base.stmt.clone();
+            for d in &devs {
+                match apply_dev(&cur, d, &base.foreign) {
+                    Some(x) => cur = x,
+                    None => {
+                        *skipped_hist.entry("not_applicable".into()).or_insert(0) += 1;
+                        return;
+                    }
+                }
+            }
+            match cur.build() {
+                Err(e) => {
+                    *skipped_hist.entry(format!("unconstructible:{}", variant(&e))).or_insert(0) += 1;
+                }
+                Ok(b) => {
+                    let canon = Stmt::canon_of(&b);
+                    if canon == honest_canon {
+                        *skipped_hist.entry("equal_after_construction".into()).or_insert(0) += 1;
+                    } else if !seen.insert(canon) {
+                        dup_stmt += 1;
+                    } else {
+                        cases.push(Case { tuple: ti, class, dev: Dev::J(json!({"kind": "statement", "devs": devs})) });
+                    }
+                }
+            }
+        };
+        for d in &singles {
+            pre(vec![d.clone()], format!("statement:{}", dev_class(d)), &mut cases);
+        }
+        if tier == Tier::Thorough {
+            for i in 0..singles.len() {
+                for j in i + 1..singles.len() {
+                    pre(vec![singles[i].clone(), singles[j].clone()], "statement_pair".into(), &mut cases);
+                }
+            }
+        }
+
+        // hash tag
+        for (tag, _) in TAGS {
+            if tag != t.bytes[0] {
+                cases.push(Case { tuple: ti, class: "tag_relabel".into(), dev: Dev::J(json!({"kind": "tag_relabel", "to": tag})) });
+            }
+        }
+        for to in 0..=255u8 {
+            if to != t.bytes[0] {
+                cases.push(Case { tuple: ti, class: if to < 3 { "tag_byte_valid" } else { "tag_byte_invalid" }.into(), dev: Dev::J(json!({"kind": "tag_byte", "to": to})) });
+            }
+        }
+        // option bytes relabelled to every non-accepted neighbour of what this tag accepts
+        let tag = t.bytes[0];
+        let mut seen_p = BTreeSet::new();
+        for acc in accepted_under(tag) {
+            let mut cands = neighbours(&acc);
+            for q in [REGULAR_96, REGULAR_128, RECURSIVE_96, RECURSIVE_128] {
+                cands.push(("standard".into(), q));
+            }
+            for (what, q) in cands {
+                let own = t.bytes[option_bytes_offset(&t.layout)..][..6] == [q.nq as u8, q.blowup as u8, q.grind as u8, q.ext, q.fold as u8, q.rem as u8];
+                if !accepted_under(tag).contains(&q) && !own && seen_p.insert(q) {
+                    cases.push(Case { tuple: ti, class: "options_relabel".into(), dev: Dev::J(json!({"kind": "options_relabel", "what": what, "params": params_json(&q, tag)})) });
+                }
+            }
+        }
+    }
+
+    // ---- the two bulk classes: (tuple, offset) items, bits chosen by the tier's plan --------------------
+    let honest_tuples: Vec<usize> = (0..w.tuples.len()).filter(|&ti| w.tuples[ti].custom.is_none()).collect();
+    let byte_items: Vec<(usize, usize)> = honest_tuples.iter().flat_map(|&ti| (0..w.tuples[ti].bytes.len()).map(move |off| (ti, off))).collect();
+
+    // ---- determinism of the machinery: the first 50 small cases and 50 flips twice ---------------------
+    for c in cases.iter().take(50) {
+        let a = format!("{:?}", eval_dev(&w, c.tuple, &c.dev).1);
+        let b = format!("{:?}", eval_dev(&w, c.tuple, &c.dev).1);
+        assert!(a == b, "harness: non-deterministic observation for {}: {a} vs {b}", c.dev.json());
+    }
+    for &(ti, off) in byte_items.iter().take(50) {
+        let d = Dev::Flip(off, 3);
+        let a = format!("{:?}", eval_dev(&w, ti, &d).1);
+        let b = format!("{:?}", eval_dev(&w, ti, &d).1);
+        assert!(a == b, "harness: non-deterministic observation for {}: {a} vs {b}", d.json());
+    }
+
+    // ---- evaluate ------------------------------------------------------------------------------------------
+    let t_eval = std::time::Instant::now();
+    let h_small: Hist = cases
+        .par_iter()
+        .fold(Hist::new, |mut m, c| {
+            run_one(ctx, &w, c.tuple, &c.class, &c.dev, &mut m);
+            m
+        })
+        .reduce(Hist::new, merge);
+    let small_s = t_eval.elapsed().as_secs_f64();
+    let t_flip = std::time::Instant::now();
+    let h_flip: Hist = byte_items
+        .par_iter()
+        .fold(Hist::new, |mut m, &(ti, off)| {
+            for &bit in flip_bits(tier, &w, &w.tuples[ti], off) {
+                run_one(ctx, &w, ti, "flip", &Dev::Flip(off, bit), &mut m);
+            }
+            m
+        })
+        .reduce(Hist::new, merge);
+    let flip_s = t_flip.elapsed().as_secs_f64();
+    let h_trunc: Hist = byte_items
+        .par_iter()
+        .fold(Hist::new, |mut m, &(ti, len)| {
+            if trunc_in_plan(tier, &w.tuples[ti], len) {
+                run_one(ctx, &w, ti, "truncate", &Dev::Trunc(len), &mut m);
+            }
+            m
+        })
+        .reduce(Hist::new, merge);
+    let hist = merge(merge(h_small, h_flip), h_trunc);
+
+    // ---- evidence --------------------------------------------------------------------------------------------
+    let sum = |f: &dyn Fn(&str) -> bool| -> u64 { hist.iter().filter(|(k, _)| f(k)).map(|(_, v)| v.0).sum() };
+    let evaluated = sum(&|k| !k.contains("=> skipped:"));
+    let honest_ok = sum(&|k| k.ends_with("=> accepted"));
+    let rejected = sum(&|k| k.contains("=> rejected:"));
+    let accepted_dev = sum(&|k| k.ends_with("=> ACCEPTED"));
+    let panics = sum(&|k| k.ends_with("=> PANIC"));
+    let mut per_class: BTreeMap<String, u64> = BTreeMap::new();
+    let mut stage_hist: BTreeMap<String, u64> = BTreeMap::new();
+    let mut cpu_by_class: BTreeMap<String, f64> = BTreeMap::new();
+    let mut outcome_by_class: BTreeMap<String, u64> = BTreeMap::new();
+    for (k, v) in &hist {
+        let (class_tag, stage) = k.split_once(" => ").unwrap_or((k, "?"));
+        let class = class_tag.split(" [").next().unwrap_or(class_tag);
+        *per_class.entry(class.to_string()).or_insert(0) += v.0;
+        *stage_hist.entry(stage.to_string()).or_insert(0) += v.0;
+        *cpu_by_class.entry(class_tag.to_string()).or_insert(0.0) += v.1 as f64 / 1e9;
+        *outcome_by_class.entry(format!("{class} => {stage}")).or_insert(0) += v.0;
+    }
+    for v in cpu_by_class.values_mut() {
+        *v = (*v * 100.0).round() / 100.0;
+    }
+    for c in cases.iter().step_by(cases.len() / 5 + 1) {
+        let t = &w.tuples[c.tuple];
+        ctx.sample(json!({"base": w.bases[t.base].def.name, "options": t.opt, "proof_len": t.bytes.len(), "class": c.class, "dev": c.dev.json(),
+                          "observation": format!("{:?}", eval_dev(&w, c.tuple, &c.dev).1)}));
+    }
+    for &(ti, off) in byte_items.iter().step_by(byte_items.len() / 2 + 1).skip(1).chain(byte_items.iter().skip(4).take(1)) {
+        let t = &w.tuples[ti];
+        let d = Dev::Flip(off, 7);
+        ctx.sample(json!({"base": w.bases[t.base].def.name, "options": t.opt, "proof_len": t.bytes.len(), "class": "flip", "dev": d.json(),
+                          "region": region_at(&t.layout, off).name, "observation": format!("{:?}", eval_dev(&w, ti, &d).1)}));
+    }
+    let tuples_json: Vec<Value> = honest_tuples
+        .iter()
+        .map(|&ti| {
+            let t = &w.tuples[ti];
+            let b = &w.bases[t.base];
+            let flips: usize = (0..t.bytes.len()).map(|off| flip_bits(tier, &w, t, off).len()).sum();
+            let truncs = (0..t.bytes.len()).filter(|&l| trunc_in_plan(tier, t, l)).count();
+            json!({"base": b.def.name, "options": t.opt, "proof_bytes": t.bytes.len(), "inputs": b.stmt.inputs.len(), "outputs": b.stmt.out_stack.len(),
+                   "overflow_addrs": b.stmt.out_addrs.len(), "kernel_procs": b.stmt.kernel.len(), "regions": t.layout.len(),
+                   "flip_cases": flips, "truncation_cases": truncs})
+        })
+        .collect();
+    let cov = json!({
+        "evaluations": evaluated,
+        "distinct_nontrivial": evaluated - honest_ok,
+        "rule": "case = (honest tuple, deviation descriptor); every deviation of the stated classes is generated exactly once per tuple; \
+                 statement deviations are de-duplicated on the altered statement as read back from the constructed objects and dropped when \
+                 equal to the honest one (or unconstructible); non-trivial = the altered artefact differs from the honest one and was \
+                 presented to from_bytes/verify (everything except the bound-0 'honest' cases); distinct by construction (tuple, descriptor)",
+        "honest_tuples": tuples_json,
+        "honest_tuples_verified": honest_ok,
+        "cases_per_class": per_class,
+        "outcome_by_class": outcome_by_class,
+        "outcome_stages": stage_hist,
+        "cpu_seconds_by_class_and_tag": cpu_by_class,
+        "verifications_or_parses": evaluated,
+        "rejected": rejected,
+        "acceptances_of_deviations": accepted_dev,
+        "panics": panics,
+        "failures_by_kind_tag_region_site": FAIL_TALLY.lock().unwrap().iter().map(|(k, v)| json!({"what": k, "cases": v.0, "which": v.1})).collect::<Vec<_>>(),
+        "statement_duplicates_dropped": dup_stmt,
+        "statement_deviations_skipped": skipped_hist,
+        "non_accepted_option_sets_proved": specs.iter().map(|(w_, p, tag)| json!({"what": w_, "params": params_json(p, *tag)})).collect::<Vec<_>>(),
+        "non_accepted_option_sets_unprovable": unprovable,
+        "accepted_options_rule": "verify() uses AcceptableOptions::OptionSet: exact membership of the proof's ProofOptions in the per-tag list (Blake3_192: REGULAR_96; Blake3_256: REGULAR_128; Rpo256: RECURSIVE_96, RECURSIVE_128); no security-level threshold",
+        "deviation_bound": tier.pick(1, 2),
+        "flip_sweep": flip_plan_text(tier),
+        "truncation_sweep": tier.pick("all lengths < 128, every 97th length, the last 16 lengths, every length that cuts a scalar field", "every length 0..len-1"),
+        "exhaustive": true,
+        "bounds": "6 base programs x option sets of the tier; single deviations (pairs of statement deviations in thorough); trailing bytes not in scope",
+        "prove_wall_s": prove_s,
+        "small_classes_wall_s": small_s,
+        "flip_wall_s": flip_s,
+    });
+    ctx.finish("fault_enumeration", cov, &[
+        "the accepted option sets are the ones documented on miden::verify (copied into the check as the specification)",
+        "honest proofs are produced by miden::prove on this tree; the prover is deterministic (trace randomness is seeded by the program hash)",
+        "a stack-input vector of at most 16 elements denotes the same statement with or without deep zeros; such variants are not counted as alterations",
+        "appending trailing bytes is outside the property's quantifier and not checked",
+    ])
+}
+
+// ------------------------------------------------------------------------------------------------
+// replay
+// ------------------------------------------------------------------------------------------------
+
+fn run_replay(ctx: &Ctx, case: &Value) -> i32 {
+    let bases = make_bases();
+    let name = case["base"].as_str().expect("harness: replay case without base");
+    let bi = bases.iter().position(|b| b.def.name == name).expect("harness: unknown base in replay case");
+    let opt = case["opt"].as_str().expect("opt").to_string();
+    let custom = if case["custom_options"].is_null() { None } else { Some(params_from_json(&case["custom_options"])) };
+    let options = match custom {
+        None => standard_sets().into_iter().find(|s| s.0 == opt).expect("harness: option set").1,
+        Some((p, tag)) => params_options(&p, tag),
+    };
+    let tuple = make_tuple(&bases, bi, &opt, options, custom).expect("harness: the base proof of the replay case cannot be re-created");
+    let digest = blake3::hash(&tuple.bytes).to_hex().to_string();
+    println!("base {name} / {opt}: re-created proof of {} bytes, blake3 {}", tuple.bytes.len(), digest);
+    if case["proof_blake3"].as_str() != Some(&digest) {
+        println!("note: the re-created proof differs from the recorded one ({}): the code under test changed", case["proof_blake3"]);
+    }
+    let dev = Dev::from_json(&case["dev"]);
+    let class = case["class"].as_str().unwrap_or("?").to_string();
+    let w = World { bases, tuples: vec![tuple] };
+    let (altered, obs) = eval_dev(&w, 0, &dev);
+    println!("honest statement: {}", w.bases[bi].stmt.to_json());
+    if let Some(a) = altered {
+        println!("altered statement (as constructed): {}", a.to_json());
+    }
+    if let Dev::Flip(off, bit) = dev {
+        let r = region_at(&w.tuples[0].layout, off);
+        let h = w.tuples[0].bytes[off];
+        println!("offset {off} lies in region {} [{}..{}); honest byte 0x{:02x} -> 0x{:02x}", r.name, r.start, r.end, h, h ^ (1 << bit));
+    }
+    if let Dev::Trunc(len) = dev {
+        let r = region_at(&w.tuples[0].layout, len);
+        println!("the first {len} bytes are kept: the cut is inside region {} [{}..{})", r.name, r.start, r.end);
+    }
+    println!("deviation: {}", dev.json());
+    println!("observation: {obs:?}");
+    println!("expected: {}", if class == "honest" { "Ok(level)" } else { "Err(_) from ExecutionProof::from_bytes or miden::verify (no Ok, no panic)" });
+    judge(ctx, &w, 0, &class, &dev, &obs);
+    ctx.finish("fault_enumeration", json!({}), &[])
 }
